@@ -10,8 +10,9 @@ Definition apply_sig (g : sig) (st : list frame) : list frame :=
   match g with
   | SNone => st
   | SBrk nm => brk_walk nm st
+  | SBrkAny => kill_top st
   | SCont nm => cont_up nm st
-  | SRet _ => kill_all st
+  | SRet k => kill_all k st
   end.
 
 Definition exit_sig (g : sig) (x : Z) : Z := match g with SRet k => k | _ => x end.
@@ -24,20 +25,32 @@ Notation mk st o x := {| c_stack := st; c_out := o; c_exit := x |}.
 Lemma pop_apply : forall g nm0 st,
   tl (apply_sig g (new_frame nm0 :: st)) = apply_sig (absorb nm0 g) st.
 Proof.
-  intros [|n|n|k] nm0 st; cbn [apply_sig absorb brk_walk cont_up kill_all map tl new_frame f_name]; try reflexivity.
+  intros [|n| |n|k] nm0 st;
+    cbn [apply_sig absorb brk_walk kill_top cont_up kill_all map tl new_frame f_name]; try reflexivity.
+  - destruct (name_eqb nm0 n); reflexivity.
+  - destruct (name_eqb nm0 n); [reflexivity|]. destruct st; reflexivity.
+Qed.
+
+(* ... and the exit number the walk left in the owner of the block *)
+Lemma top_exit_apply : forall g nm0 st,
+  top_exit (apply_sig g (new_frame nm0 :: st)) = sig_exit (absorb nm0 g).
+Proof.
+  intros [|n| |n|k] nm0 st;
+    cbn [apply_sig absorb brk_walk kill_top cont_up kill_all map new_frame f_name top_exit sig_exit]; try reflexivity.
   - destruct (name_eqb nm0 n); reflexivity.
   - destruct (name_eqb nm0 n); [reflexivity|]. destruct st; reflexivity.
 Qed.
 
 Lemma exit_absorb : forall nm g x, exit_sig (absorb nm g) x = exit_sig g x.
-Proof. intros nm [|n|n|k] x; cbn; try reflexivity; destruct (name_eqb nm n); reflexivity. Qed.
+Proof. intros nm [|n| |n|k] x; cbn; try reflexivity; destruct (name_eqb nm n); reflexivity. Qed.
 
 (* a signal leaves the innermost frame dead, so the rest of its block is skipped *)
 Lemma signal_kills_top : forall g st, st <> [] -> g <> SNone -> top_live (apply_sig g st) = false.
 Proof.
   intros g [|f st] Hne Hg; [congruence|].
-  destruct g as [|n|n|k]; [congruence| | |]; cbn [apply_sig brk_walk cont_up kill_all map].
+  destruct g as [|n| |n|k]; [congruence| | | |]; cbn [apply_sig brk_walk kill_top cont_up kill_all map].
   - destruct (name_eqb (f_name f) n); reflexivity.
+  - reflexivity.
   - destruct (name_eqb (f_name f) n); cbn; [apply andb_false_r|].
     destruct st; cbn; [apply andb_false_r|reflexivity].
   - reflexivity.
@@ -46,31 +59,34 @@ Qed.
 Lemma all_live_top : forall st, st <> [] -> all_live st = true -> top_live st = true.
 Proof. intros [|f st] H L; [congruence|]. cbn in *. apply andb_true_iff in L as [L _]. exact L. Qed.
 
-Lemma skipped_block : forall b e c, top_live (c_stack c) = false -> exec_block e b c = c.
-Proof. intros [|s b] e c H; cbn [exec_block]; [reflexivity|]. rewrite H. reflexivity. Qed.
+Lemma skipped_block : forall b tm e c x, top_live (c_stack c) = false -> exec_block tm e b c x = (c, x).
+Proof. intros [|s b] tm e c x H; cbn [exec_block]; [reflexivity|]. rewrite H. reflexivity. Qed.
 
-Lemma cancelled_loop : forall body k i c, top_cancelled (c_stack c) = true -> cancel_loop body k i c = c.
-Proof. intros body [|k] i c H; cbn [cancel_loop]; [reflexivity|]. rewrite H. reflexivity. Qed.
+Lemma cancelled_loop : forall body sf k i c, top_cancelled (c_stack c) = true -> cancel_loop body sf k i c = c.
+Proof. intros body sf [|k] i c H; cbn [cancel_loop]; [reflexivity|]. rewrite H. reflexivity. Qed.
 
 (* ---- loops ---- *)
 Section Loop.
   Variable nm : name.
   Variable encl : list name.
   Hypothesis encl_ne : encl <> [].
-  Variable body_c : N -> cstate -> cstate.
-  Variable body_r : N -> list tok * sig.
+  Variable sf : bool.
+  Variable body_c : N -> cstate -> cstate * Z.
+  Variable body_r : N -> list tok * sig * Z.
   Hypothesis Hbody : forall i st o x, all_live st = true -> map f_name st = nm :: encl ->
     body_c i (mk st o x) =
-      mk (apply_sig (snd (body_r i)) st) (o ++ fst (body_r i)) (exit_sig (snd (body_r i)) x).
+      (mk (apply_sig (snd (fst (body_r i))) st) (o ++ fst (fst (body_r i))) (exit_sig (snd (fst (body_r i))) x),
+       snd (body_r i)).
 
   Lemma loop_refines : forall k i F st o x,
-    f_name F = nm -> f_cancelled F = false -> all_live st = true -> map f_name st = encl ->
-    pop (cancel_loop body_c k i (mk (F :: st) o x)) =
-      mk (apply_sig (snd (ref_loop body_r nm k i)) st) (o ++ fst (ref_loop body_r nm k i))
-         (exit_sig (snd (ref_loop body_r nm k i)) x).
+    f_name F = nm -> f_cancelled F = false -> f_exit F = 0%Z -> all_live st = true -> map f_name st = encl ->
+    let r := cancel_loop body_c sf k i (mk (F :: st) o x) in
+    let g := snd (ref_loop body_r nm sf k i) in
+    pop r = mk (apply_sig g st) (o ++ fst (ref_loop body_r nm sf k i)) (exit_sig g x) /\
+    top_exit (c_stack r) = sig_exit g.
   Proof.
-    induction k as [|k IH]; intros i F st o x HN HC HL HM; cbn [cancel_loop ref_loop].
-    - cbn. rewrite app_nil_r. reflexivity.
+    induction k as [|k IH]; intros i F st o x HN HC HX HL HM; cbn [cancel_loop ref_loop].
+    - cbn. rewrite app_nil_r. split; [reflexivity|exact HX].
     - cbn [c_stack top_cancelled]. rewrite HC. unfold renew_top. cbn [c_stack c_out c_exit].
       set (F' := fresh_iteration F).
       assert (HL' : all_live (F' :: st) = true).
@@ -78,84 +94,138 @@ Section Loop.
       assert (HM' : map f_name (F' :: st) = nm :: encl).
       { cbn. rewrite HN, HM. reflexivity. }
       rewrite (Hbody i (F' :: st) o x HL' HM').
-      destruct (body_r i) as [o1 g]. cbn [fst snd].
+      destruct (body_r i) as [[o1 g] xb]. cbn [fst snd].
       assert (HN' : f_name F' = nm) by exact HN.
       assert (HC' : f_cancelled F' = false) by exact HC.
-      destruct g as [|n|n|r]; cbn [apply_sig exit_sig].
-      + (* no signal: next iteration *)
-        rewrite (IH (i + 1) F' st (o ++ o1) x HN' HC' HL HM).
-        destruct (ref_loop body_r nm k (i + 1)) as [o2 g2]. cbn [fst snd]. rewrite app_assoc. reflexivity.
+      assert (HX' : f_exit F' = 0%Z) by exact HX.
+      assert (NEXT : forall F2, f_name F2 = nm -> f_cancelled F2 = false -> f_exit F2 = 0%Z ->
+        let r := cancel_loop body_c sf k (i + 1) (mk (F2 :: st) (o ++ o1) x) in
+        let g2 := snd (let '(o2, g2) := ref_loop body_r nm sf k (i + 1) in (o1 ++ o2, g2)) in
+        pop r = mk (apply_sig g2 st) (o ++ fst (let '(o2, g2) := ref_loop body_r nm sf k (i + 1) in (o1 ++ o2, g2)))
+                   (exit_sig g2 x) /\ top_exit (c_stack r) = sig_exit g2).
+      { intros F2 H1 H2 H3. destruct (IH (i + 1) F2 st (o ++ o1) x H1 H2 H3 HL HM) as [A B].
+        destruct (ref_loop body_r nm sf k (i + 1)) as [o2 g2]. cbn [fst snd] in *.
+        rewrite app_assoc. split; assumption. }
+      destruct g as [|n| |n|r]; cbn [apply_sig exit_sig].
+      + (* no signal *)
+        destruct (sf && failed xb).
+        * cbn. split; [reflexivity|exact HX].
+        * apply NEXT; assumption.
       + (* break *)
-        cbn [brk_walk]. rewrite HN'. destruct (name_eqb nm n).
-        * rewrite cancelled_loop by reflexivity. cbn. reflexivity.
-        * rewrite cancelled_loop by reflexivity. cbn. reflexivity.
+        cbn [brk_walk]. rewrite HN'.
+        destruct (sf && failed xb); destruct (name_eqb nm n);
+          rewrite ?cancelled_loop by reflexivity; cbn; split; reflexivity.
+      + (* break without a name *)
+        cbn [kill_top].
+        destruct (sf && failed xb); rewrite ?cancelled_loop by reflexivity; cbn; split; reflexivity.
       + (* continue *)
         cbn [cont_up]. rewrite HN'. destruct (name_eqb nm n).
-        * rewrite (IH (i + 1) (kill_rest F') st (o ++ o1) x HN' HC' HL HM).
-          destruct (ref_loop body_r nm k (i + 1)) as [o2 g2]. cbn [fst snd]. rewrite app_assoc. reflexivity.
+        * destruct (sf && failed xb).
+          -- cbn. split; [reflexivity|exact HX].
+          -- apply (NEXT (kill_rest F')); assumption.
         * destruct st as [|G st']; [cbn in HM; congruence|].
-          rewrite cancelled_loop by reflexivity. cbn. reflexivity.
+          destruct (sf && failed xb); rewrite ?cancelled_loop by reflexivity; cbn; split; reflexivity.
       + (* return *)
-        cbn [kill_all map]. rewrite cancelled_loop by reflexivity. cbn. reflexivity.
+        cbn [kill_all map].
+        destruct (sf && failed xb); rewrite ?cancelled_loop by reflexivity; cbn; split; reflexivity.
   Qed.
 End Loop.
 
 (* ---- the refinement, for statements and blocks ---- *)
+Definition names (encl : list (name * bool)) : list name := map fst encl.
+
 Definition stmt_refines (s : stmt) : Prop :=
-  forall e encl st o x, all_live st = true -> map f_name st = encl -> encl <> [] -> wn_stmt encl s = true ->
-    exec_stmt e s (mk st o x) =
-      mk (apply_sig (snd (ref_stmt e s)) st) (o ++ fst (ref_stmt e s)) (exit_sig (snd (ref_stmt e s)) x).
+  forall tm e encl st o x, all_live st = true -> map f_name st = names encl -> encl <> [] ->
+    wn_stmt encl s = true ->
+    exec_stmt tm e s (mk st o x) =
+      (mk (apply_sig (snd (fst (ref_stmt tm e s))) st) (o ++ fst (fst (ref_stmt tm e s)))
+          (exit_sig (snd (fst (ref_stmt tm e s))) x),
+       snd (ref_stmt tm e s)).
 
 Definition block_refines (b : block) : Prop :=
-  forall e encl st o x, all_live st = true -> map f_name st = encl -> encl <> [] -> wn_block encl b = true ->
-    exec_block e b (mk st o x) =
-      mk (apply_sig (snd (ref_block e b)) st) (o ++ fst (ref_block e b)) (exit_sig (snd (ref_block e b)) x).
+  forall tm e encl st o x xp, all_live st = true -> map f_name st = names encl -> encl <> [] ->
+    wn_block encl b = true ->
+    exec_block tm e b (mk st o x) xp =
+      (mk (apply_sig (snd (fst (ref_block tm e b xp))) st) (o ++ fst (fst (ref_block tm e b xp)))
+          (exit_sig (snd (fst (ref_block tm e b xp))) x),
+       snd (ref_block tm e b xp)).
 
-Lemma nonempty_stack : forall (st : list frame) encl, map f_name st = encl -> encl <> [] -> st <> [].
-Proof. intros [|f st] encl H N; [cbn in H; congruence|discriminate]. Qed.
+Lemma nonempty_stack : forall (st : list frame) (encl : list (name * bool)),
+  map f_name st = names encl -> encl <> [] -> st <> [].
+Proof. intros [|f st] [|a encl] H N; try congruence; discriminate. Qed.
+
+Lemma names_ne : forall encl : list (name * bool), encl <> [] -> names encl <> [].
+Proof. intros [|a l] H; [congruence|discriminate]. Qed.
 
 Lemma refines_all : (forall s, stmt_refines s) /\ (forall b, block_refines b).
 Proof.
   apply stmt_block_mutind; unfold stmt_refines, block_refines.
-  - (* Out *) intros t e encl st o x L M NE W. reflexivity.
-  - (* If *) intros c b IH e encl st o x L M NE W. cbn [exec_stmt ref_stmt wn_stmt] in *.
-    destruct (eval e c).
-    + unfold push. cbn [c_stack c_out c_exit].
-      rewrite (IH e (NIf :: encl) (new_frame NIf :: st) o x); [| cbn; exact L | cbn; rewrite M; reflexivity | discriminate | exact W].
-      destruct (ref_block e b) as [o1 g]. cbn [fst snd]. unfold pop. cbn [c_stack c_out c_exit].
-      rewrite pop_apply, exit_absorb. reflexivity.
-    + cbn. rewrite app_nil_r. reflexivity.
-  - (* Foreach *) intros id n b IH e encl st o x L M NE W. cbn [exec_stmt ref_stmt wn_stmt] in *.
+  - (* Out *) intros t tm e encl st o x L M NE W. reflexivity.
+  - (* Branch *) intros k c b IHb d IHd tm e encl st o x L M NE W. cbn [exec_stmt ref_stmt wn_stmt] in *.
+    apply andb_true_iff in W as [Wb Wd].
+    set (blk := if eval e c then b else d).
+    assert (IH : exec_block tm e blk (push (new_frame (branch_name k)) (mk st o x)) 0%Z =
+      (mk (apply_sig (snd (fst (ref_block tm e blk 0%Z))) (new_frame (branch_name k) :: st))
+          (o ++ fst (fst (ref_block tm e blk 0%Z))) (exit_sig (snd (fst (ref_block tm e blk 0%Z))) x),
+       snd (ref_block tm e blk 0%Z))).
+    { unfold blk, push. cbn [c_stack c_out c_exit]. destruct (eval e c).
+      - apply (IHb tm e ((branch_name k, false) :: encl)); [cbn; exact L | cbn; rewrite M; reflexivity | discriminate | exact Wb].
+      - apply (IHd tm e ((branch_name k, false) :: encl)); [cbn; exact L | cbn; rewrite M; reflexivity | discriminate | exact Wd]. }
+    rewrite IH. destruct (ref_block tm e blk 0%Z) as [[o1 g] xb]. cbn [fst snd]. unfold pop. cbn [c_stack c_out c_exit].
+    rewrite pop_apply, top_exit_apply, exit_absorb. reflexivity.
+  - (* Loop *) intros k id n b IH tm e encl st o x L M NE W. cbn [exec_stmt ref_stmt wn_stmt] in *.
     unfold push. cbn [c_stack c_out c_exit].
-    apply (loop_refines NForeach encl NE (fun i c' => exec_block ((id, i) :: e) b c') (fun i => ref_block ((id, i) :: e) b)); auto.
-    intros i st' o' x' L' M'. apply (IH ((id, i) :: e) (NForeach :: encl)); auto. discriminate.
-  - (* While *) intros id n b IH e encl st o x L M NE W. cbn [exec_stmt ref_stmt wn_stmt] in *.
+    set (sf := match k with LWhile1 => tm | _ => false end).
+    destruct (loop_refines (loop_name k) (names encl) (names_ne _ NE) sf
+                (fun i c' => exec_block tm ((id, i) :: e) b c' 0%Z)
+                (fun i => ref_block tm ((id, i) :: e) b 0%Z)) with
+      (k := n) (i := 1) (F := new_frame (loop_name k)) (st := st) (o := o) (x := x) as [A B]; auto.
+    { intros i st' o' x' L' M'.
+      apply (IH tm ((id, i) :: e) ((loop_name k, match k with LWhile1 => true | _ => false end) :: encl)); auto.
+      discriminate. }
+    cbv zeta in A, B. rewrite A, B.
+    destruct (ref_loop _ (loop_name k) sf n 1) as [o1 g]. reflexivity.
+  - (* Try *) intros pipe b IH tm e encl st o x L M NE W. cbn [exec_stmt ref_stmt wn_stmt] in *.
     unfold push. cbn [c_stack c_out c_exit].
-    apply (loop_refines NWhile encl NE (fun i c' => exec_block ((id, i) :: e) b c') (fun i => ref_block ((id, i) :: e) b)); auto.
-    intros i st' o' x' L' M'. apply (IH ((id, i) :: e) (NWhile :: encl)); auto. discriminate.
-  - (* Call *) intros f b IH e encl st o x L M NE W. cbn [exec_stmt ref_stmt wn_stmt] in *.
-    rewrite (IH [] [NFunc f] [new_frame (NFunc f)] [] 0%Z); [| reflexivity | reflexivity | discriminate | exact W].
-    destruct (ref_block [] b) as [o1 g]. cbn [fst snd c_stack c_out c_exit app apply_sig exit_sig].
-    destruct g; reflexivity.
-  - (* Break *) intros nm e encl st o x L M NE W. cbn. rewrite app_nil_r. reflexivity.
-  - (* Continue *) intros nm e encl st o x L M NE W. cbn [exec_stmt ref_stmt wn_stmt fst snd apply_sig exit_sig c_stack c_out c_exit] in *.
+    rewrite (IH true e ((try_name pipe, false) :: encl) (new_frame (try_name pipe) :: st) o x 0%Z);
+      [| cbn; exact L | cbn; rewrite M; reflexivity | discriminate | exact W].
+    destruct (ref_block true e b 0%Z) as [[o1 g] xb]. cbn [fst snd]. unfold pop. cbn [c_stack c_out c_exit].
+    rewrite pop_apply, exit_absorb. reflexivity.
+  - (* Call *) intros f b IH tm e encl st o x L M NE W. cbn [exec_stmt ref_stmt wn_stmt] in *.
+    rewrite (IH false [] [(NFunc f, false)] [new_frame (NFunc f)] [] 0%Z 0%Z); [| reflexivity | reflexivity | discriminate | exact W].
+    destruct (ref_block false [] b 0%Z) as [[o1 g] xb]. cbn [fst snd c_stack c_out c_exit app].
+    assert (E : exit_sig g 0%Z = match g with SRet k => k | _ => 0%Z end) by (destruct g; reflexivity).
+    rewrite E. destruct (tm && failed match g with SRet k => k | _ => 0%Z end); reflexivity.
+  - (* Break *) intros nm tm e encl st o x L M NE W. cbn. rewrite app_nil_r. reflexivity.
+  - (* BreakAny *) intros tm e encl st o x L M NE W. cbn. rewrite app_nil_r. reflexivity.
+  - (* Continue *) intros nm tm e encl st o x L M NE W.
+    cbn [exec_stmt ref_stmt wn_stmt fst snd apply_sig exit_sig c_stack c_out c_exit] in *.
     rewrite app_nil_r.
-    destruct st as [|F [|G st]]; cbn in M; subst encl; try discriminate.
-    apply negb_true_iff in W. unfold cont_walk. cbn [cont_up]. rewrite W. reflexivity.
-  - (* Return *) intros k e encl st o x L M NE W. cbn. rewrite app_nil_r. reflexivity.
-  - (* BNil *) intros e encl st o x L M NE W. cbn. rewrite app_nil_r. reflexivity.
-  - (* BCons *) intros s IHs b IHb e encl st o x L M NE W. cbn [exec_block ref_block wn_block c_stack] in *.
+    destruct encl as [|[x0 w0] [|a1 encl]]; try discriminate.
+    destruct st as [|F [|G st]]; cbn in M; try discriminate.
+    inversion M as [[M1 M2 M3]]. apply andb_true_iff in W as [W _]. apply negb_true_iff in W.
+    unfold cont_walk. cbn [cont_up]. rewrite M1, W. reflexivity.
+  - (* Return *) intros k tm e encl st o x L M NE W. cbn. rewrite app_nil_r. reflexivity.
+  - (* BNil *) intros tm e encl st o x xp L M NE W. cbn. rewrite app_nil_r. reflexivity.
+  - (* BCons *) intros s IHs b IHb tm e encl st o x xp L M NE W. cbn [exec_block ref_block wn_block c_stack] in *.
     apply andb_true_iff in W as [Ws Wb].
     pose proof (nonempty_stack st encl M NE) as NS.
     rewrite (all_live_top st NS L).
-    rewrite (IHs e encl st o x L M NE Ws).
-    destruct (ref_stmt e s) as [o1 g]. cbn [fst snd].
-    destruct g as [|n|n|k].
-    + cbn [apply_sig exit_sig]. rewrite (IHb e encl st (o ++ o1) x L M NE Wb).
-      destruct (ref_block e b) as [o2 g2]. cbn [fst snd]. rewrite app_assoc. reflexivity.
-    + apply skipped_block. cbn [c_stack]. apply signal_kills_top; [exact NS|discriminate].
-    + apply skipped_block. cbn [c_stack]. apply signal_kills_top; [exact NS|discriminate].
-    + apply skipped_block. cbn [c_stack]. apply signal_kills_top; [exact NS|discriminate].
+    rewrite (IHs tm e encl st o x L M NE Ws).
+    destruct (ref_stmt tm e s) as [[o1 g] xs]. cbn [fst snd].
+    destruct g as [|n| |n|k].
+    + cbn [apply_sig exit_sig]. destruct (tm && failed xs && nonnil b).
+      * reflexivity.
+      * rewrite (IHb tm e encl st (o ++ o1) x xs L M NE Wb).
+        destruct (ref_block tm e b xs) as [[o2 g2] x2]. cbn [fst snd]. rewrite app_assoc. reflexivity.
+    + destruct (tm && failed xs && nonnil b); [reflexivity|].
+      apply skipped_block. cbn [c_stack]. apply signal_kills_top; [exact NS|discriminate].
+    + destruct (tm && failed xs && nonnil b); [reflexivity|].
+      apply skipped_block. cbn [c_stack]. apply signal_kills_top; [exact NS|discriminate].
+    + destruct (tm && failed xs && nonnil b); [reflexivity|].
+      apply skipped_block. cbn [c_stack]. apply signal_kills_top; [exact NS|discriminate].
+    + destruct (tm && failed xs && nonnil b); [reflexivity|].
+      apply skipped_block. cbn [c_stack]. apply signal_kills_top; [exact NS|discriminate].
 Qed.
 
 (* THE REFINEMENT *)
@@ -163,27 +233,31 @@ Theorem cancel_refines_signals : forall main, well_named main = true -> run_canc
 Proof.
   intros main W. unfold run_cancel, run_ref, well_named in *.
   destruct refines_all as [_ HB].
-  rewrite (HB main [] [NFunc 0] [new_frame (NFunc 0)] [] 0%Z); [| reflexivity | reflexivity | discriminate | exact W].
-  destruct (ref_block [] main) as [o g]. cbn [fst snd c_out c_exit app exit_sig]. destruct g; reflexivity.
+  rewrite (HB main false [] [(NFunc 0, false)] [new_frame (NFunc 0)] [] 0%Z 0%Z); [| reflexivity | reflexivity | discriminate | exact W].
+  destruct (ref_block false [] main 0%Z) as [[o g] xb]. cbn [fst snd c_out c_exit app exit_sig]. destruct g; reflexivity.
 Qed.
 
 (* ---- corollaries ---- *)
 Lemma name_eqb_refl : forall n, name_eqb n n = true.
-Proof. intros [| | |f]; cbn; auto. apply N.eqb_refl. Qed.
+Proof. intros []; cbn; auto. apply N.eqb_refl. Qed.
 
 (* break: nothing after it in its block runs, and exactly the frames up to the named one die *)
-Theorem break_stops_rest_of_block : forall e nm rest st o x, st <> [] -> all_live st = true ->
-  exec_block e (BCons (Break nm) rest) (mk st o x) = mk (brk_walk nm st) o x.
+Theorem break_stops_rest_of_block : forall tm e nm rest st o x xp, st <> [] -> all_live st = true ->
+  exec_block tm e (BCons (Break nm) rest) (mk st o x) xp = (mk (brk_walk nm st) o x, 0%Z).
 Proof.
-  intros e nm rest st o x NS L. cbn [exec_block c_stack]. rewrite (all_live_top st NS L).
-  apply skipped_block. cbn [exec_stmt c_stack].
-  apply (signal_kills_top (SBrk nm) st NS). discriminate.
+  intros tm e nm rest st o x xp NS L. cbn [exec_block c_stack]. rewrite (all_live_top st NS L).
+  cbn [exec_stmt c_stack c_out c_exit]. change (failed 0) with false. rewrite andb_false_r. cbn [andb].
+  apply skipped_block. cbn [c_stack]. apply (signal_kills_top (SBrk nm) st NS). discriminate.
 Qed.
+
+(* `break` without a name ends the innermost block only *)
+Theorem nameless_break_ends_innermost : forall F st, kill_top (F :: st) = kill 0 F :: st.
+Proof. reflexivity. Qed.
 
 (* the frames outside the named block are not touched by break *)
 Theorem break_outside_untouched : forall nm F inner outer,
   f_name F = nm -> (forall G, In G inner -> name_eqb (f_name G) nm = false) ->
-  brk_walk nm (inner ++ F :: outer) = map kill inner ++ kill F :: outer.
+  brk_walk nm (inner ++ F :: outer) = map (kill 0) inner ++ kill 0 F :: outer.
 Proof.
   intros nm F inner outer HF. induction inner as [|G inner IH]; intro H; cbn [app map brk_walk].
   - rewrite HF, name_eqb_refl. reflexivity.
@@ -194,13 +268,13 @@ Qed.
    current iteration is, every block inside it is cancelled, every frame outside is untouched *)
 Theorem continue_next_iteration : forall nm F inner outer,
   f_name F = nm -> (forall G, In G inner -> name_eqb (f_name G) nm = false) ->
-  cont_up nm (inner ++ F :: outer) = map kill inner ++ kill_rest F :: outer.
+  cont_up nm (inner ++ F :: outer) = map (kill 0) inner ++ kill_rest F :: outer.
 Proof.
   intros nm F inner outer HF. induction inner as [|G inner IH]; intro H; cbn [app map].
   - cbn [cont_up]. rewrite HF, name_eqb_refl. reflexivity.
   - change (cont_up nm (G :: inner ++ F :: outer)) with
       (if name_eqb (f_name G) nm then kill_rest G :: (inner ++ F :: outer)
-       else match inner ++ F :: outer with [] => [kill_rest G] | _ => kill G :: cont_up nm (inner ++ F :: outer) end).
+       else match inner ++ F :: outer with [] => [kill_rest G] | _ => kill 0 G :: cont_up nm (inner ++ F :: outer) end).
     rewrite (H G (or_introl eq_refl)).
     assert (IH' := IH (fun G' HG' => H G' (or_intror HG'))).
     destruct (inner ++ F :: outer) eqn:E; [destruct inner; discriminate|].
@@ -208,41 +282,71 @@ Proof.
 Qed.
 
 (* ... and the reference loop does run its next iteration *)
-Theorem continue_loop_goes_on : forall body nm k i o,
-  body i = (o, SCont nm) ->
-  ref_loop body nm (S k) i = (o ++ fst (ref_loop body nm k (i + 1)), snd (ref_loop body nm k (i + 1))).
+Theorem continue_loop_goes_on : forall body nm k i o x,
+  body i = (o, SCont nm, x) ->
+  ref_loop body nm false (S k) i = (o ++ fst (ref_loop body nm false k (i + 1)), snd (ref_loop body nm false k (i + 1))).
 Proof.
-  intros body nm k i o H. cbn [ref_loop]. rewrite H, name_eqb_refl.
-  destruct (ref_loop body nm k (i + 1)); reflexivity.
+  intros body nm k i o x H. cbn [ref_loop]. rewrite H, name_eqb_refl. cbn [andb].
+  destruct (ref_loop body nm false k (i + 1)); reflexivity.
 Qed.
 
 (* return n: the program / the function call reports exit number n *)
-Theorem return_sets_exit : forall main o k, well_named main = true ->
-  ref_block [] main = (o, SRet k) -> run_cancel main = (o, k).
+Theorem return_sets_exit : forall main o k x, well_named main = true ->
+  ref_block false [] main 0%Z = (o, SRet k, x) -> run_cancel main = (o, k).
 Proof.
-  intros main o k W H. rewrite (cancel_refines_signals main W). unfold run_ref. rewrite H. reflexivity.
+  intros main o k x W H. rewrite (cancel_refines_signals main W). unfold run_ref. rewrite H. reflexivity.
 Qed.
 
-Theorem return_sets_call_exit : forall e f b encl st o x o1 k,
-  all_live st = true -> map f_name st = encl -> encl <> [] -> wn_block [NFunc f] b = true ->
-  ref_block [] b = (o1, SRet k) ->
-  exec_stmt e (Call f b) (mk st o x) = mk st (o ++ o1 ++ [TExit k]) x.
+Theorem return_sets_call_exit : forall e f b encl st o x o1 k xb,
+  all_live st = true -> map f_name st = names encl -> encl <> [] -> wn_block [(NFunc f, false)] b = true ->
+  ref_block false [] b 0%Z = (o1, SRet k, xb) ->
+  exec_stmt false e (Call f b) (mk st o x) = (mk st (o ++ o1 ++ [TExit k]) x, 0%Z).
 Proof.
-  intros e f b encl st o x o1 k L M NE W H.
+  intros e f b encl st o x o1 k xb L M NE W H.
   destruct refines_all as [HS _].
-  rewrite (HS (Call f b) e encl st o x L M NE W). cbn [ref_stmt]. rewrite H. reflexivity.
+  rewrite (HS (Call f b) false e encl st o x L M NE W). cbn [ref_stmt]. rewrite H. reflexivity.
 Qed.
 
 (* code outside the named block carries on: a statement that ends without a signal for its
-   surroundings (whatever was broken / continued / returned inside it) leaves every enclosing
-   frame and the exit number as they were *)
-Theorem outside_unaffected : forall e s encl st o x,
-  all_live st = true -> map f_name st = encl -> encl <> [] -> wn_stmt encl s = true ->
-  snd (ref_stmt e s) = SNone ->
-  exec_stmt e s (mk st o x) = mk st (o ++ fst (ref_stmt e s)) x.
+   surroundings (whatever was broken / continued / returned inside it, in whatever run mode)
+   leaves every enclosing frame and the exit number as they were *)
+Theorem outside_unaffected : forall tm e s encl st o x,
+  all_live st = true -> map f_name st = names encl -> encl <> [] -> wn_stmt encl s = true ->
+  snd (fst (ref_stmt tm e s)) = SNone ->
+  fst (exec_stmt tm e s (mk st o x)) = mk st (o ++ fst (fst (ref_stmt tm e s))) x.
 Proof.
-  intros e s encl st o x L M NE W H. destruct refines_all as [HS _].
-  rewrite (HS s e encl st o x L M NE W), H. reflexivity.
+  intros tm e s encl st o x L M NE W H. destruct refines_all as [HS _].
+  rewrite (HS s tm e encl st o x L M NE W), H. reflexivity.
+Qed.
+
+(* try: a break that names a loop inside the try block ends that loop only - the try block is
+   not left: the statements after the loop run, in try mode as before *)
+Theorem break_inside_try_affects_only_named_block : forall pipe e k id n b rest,
+  snd (fst (ref_stmt true e (Loop k id n b))) = SNone ->
+  snd (ref_stmt true e (Loop k id n b)) = 0%Z /\
+  ref_stmt false e (Try pipe (BCons (Loop k id n b) rest)) =
+    (let '(o2, g2, x2) := ref_block true e rest 0%Z in
+     (fst (fst (ref_stmt true e (Loop k id n b))) ++ o2, absorb (try_name pipe) g2, x2)).
+Proof.
+  intros pipe e k id n b rest H.
+  assert (X : snd (ref_stmt true e (Loop k id n b)) = 0%Z).
+  { cbn [ref_stmt] in *. destruct (ref_loop _ _ _ n 1) as [o g]. cbn [fst snd] in *. subst g. reflexivity. }
+  split; [exact X|].
+  cbn [ref_stmt ref_block]. change (ref_stmt true e (Loop k id n b)) with (ref_stmt true e (Loop k id n b)).
+  destruct (ref_stmt true e (Loop k id n b)) as [[o1 g] x1] eqn:E. cbn [fst snd] in *. subst g x1.
+  fold (ref_stmt true e (Loop k id n b)). cbn [ref_stmt] in E. rewrite E.
+  change (failed 0) with false. rewrite andb_false_r. cbn [andb].
+  destruct (ref_block true e rest 0%Z) as [[o2 g2] x2]. reflexivity.
+Qed.
+
+(* try: a call that returns a non-zero number ends the try block (as documented) - and only it *)
+Theorem failed_call_ends_try_block : forall e f b rest o1 k xb, (0 < k)%Z -> rest <> BNil ->
+  ref_block false [] b 0%Z = (o1, SRet k, xb) ->
+  ref_block true e (BCons (Call f b) rest) 0%Z = (o1, SNone, k).
+Proof.
+  intros e f b rest o1 k xb K R H. cbn [ref_block ref_stmt]. rewrite H.
+  assert (F : failed k = true) by (unfold failed; apply Z.ltb_lt; exact K).
+  rewrite F. cbn [andb]. rewrite F. destruct rest; [congruence|reflexivity].
 Qed.
 
 Theorem model_meets_spec : forall main, well_named main = true ->
@@ -256,22 +360,18 @@ Proof.
 Qed.
 
 (* ---- the function boundary ---- *)
-(* Whatever a called function does - including a break / continue whose name only a block of the
-   CALLER has - the caller's frames and exit number are untouched and the call is an ordinary
-   statement for the caller: the jump ends (at most) the function it is written in. *)
-Theorem break_does_not_cross_function : forall e f b st o x,
-  c_stack (exec_stmt e (Call f b) (mk st o x)) = st /\
-  c_exit (exec_stmt e (Call f b) (mk st o x)) = x /\
-  snd (ref_stmt e (Call f b)) = SNone.
+Theorem break_does_not_cross_function : forall tm e f b st o x,
+  c_stack (fst (exec_stmt tm e (Call f b) (mk st o x))) = st /\
+  c_exit (fst (exec_stmt tm e (Call f b) (mk st o x))) = x /\
+  snd (fst (ref_stmt tm e (Call f b))) = SNone.
 Proof.
-  intros e f b st o x. cbn [exec_stmt ref_stmt c_stack c_exit]. repeat split.
-  destruct (ref_block [] b); reflexivity.
+  intros tm e f b st o x. cbn [exec_stmt ref_stmt].
+  destruct (ref_block false [] b 0%Z) as [[o1 g] xb].
+  destruct (tm && failed (c_exit _)); destruct (tm && failed _); repeat split.
 Qed.
 
-(* a break whose name no block of the function has abandons the function: every frame of the
-   activation dies (and, the stack ending at the function, nothing else) *)
 Theorem unresolved_break_kills_function_only : forall nm st,
-  (forall G, In G st -> name_eqb (f_name G) nm = false) -> brk_walk nm st = map kill st.
+  (forall G, In G st -> name_eqb (f_name G) nm = false) -> brk_walk nm st = map (kill 0) st.
 Proof.
   intros nm st. induction st as [|G st IH]; intro H; cbn [brk_walk map]; [reflexivity|].
   rewrite (H G (or_introl eq_refl)). f_equal. apply IH. intros G' HG'. apply H. right. exact HG'.
